@@ -20,17 +20,23 @@ from ..partition import FRESH
 from ..cfg import CFG, node_calls
 
 LEVEL = "other"
-TECHNIQUE = ("resolved dispatcher call graph with token-name propagation (SCC / reachability), constant-key "
-             "evaluation, CFG dominance of scope tests over pop loops, tokenizer epsilon-graph acyclicity")
-CLAIM = ("Over all code (not sampled inputs): every constant key used to index a constant table exists (no KeyError on a "
-         "rare path); the only recursion in tree construction is the bounded endTagP/startTagCloseP pair (no "
-         "input-depth recursion -> no RecursionError); every loop that pops the stack of open elements is dominated by "
-         "the scope test / sentinel that makes it stop before the root (no IndexError); every phase handles every token "
-         "kind; html/head/body elements are created only by the handlers the standard names and no phase above <body> "
-         "inserts non-white-space text; the tokenizer cannot loop without consuming input (epsilon-graph acyclic, EOF "
-         "chain reaches STOP, every scanning loop has an end-of-input exit); a node detached while on the stack leaves the "
-         "stack; None-initialised locals are not dereferenced where they can be None; a handler that hands its token back has "
-         "changed the insertion mode or the stack first.")
+TECHNIQUE = ('resolved dispatcher call graph with token-name propagation (SCC / reachability), constant-key '
+             'evaluation, CFG dominance of scope tests over pop loops, tokenizer epsilon-graph acyclicity; '
+             'interprocedural must-progress summaries (least fixpoint) for reprocessing hand-backs; insertion-mode '
+             'transition table')
+CLAIM = ('Over all code (not sampled inputs): every constant key used to index a constant table exists (no '
+         'KeyError on a rare path); the only recursion in tree construction is the bounded '
+         'endTagP/startTagCloseP pair (no input-depth recursion -> no RecursionError); every loop that pops '
+         'the stack of open elements is dominated by the scope test / sentinel that makes it stop before the '
+         'root (no IndexError); every phase handles every token kind; html/head/body elements are created only '
+         'by the handlers the standard names and no phase above <body> inserts non-white-space text; the '
+         'tokenizer cannot loop without consuming input (epsilon-graph acyclic, EOF chain reaches STOP, every '
+         'scanning loop has an end-of-input exit); a node detached while on the stack leaves the stack; None- '
+         'initialised locals are not dereferenced where they can be None; a handler that hands its token back '
+         'has changed the insertion mode or the stack first. A hand-back that follows only a call which may '
+         "have done nothing is conditional; insertion-mode switches are the standard's (handlers rely on the "
+         'skeleton their mode implies); name tests in resetInsertionMode apply to HTML elements only; a '
+         'possibly-None result is not passed where it is dereferenced.')
 NOT_DECIDED = ("unreachability of the `assert ...innerHTML` sites in document mode, termination of the tree-construction "
                "reprocessing loop, exceptions raised inside xml.dom.minidom / ElementTree, wall-clock.")
 MODULES = ["html5parser.py", "treebuilders/base.py", "treebuilders/etree.py", "treebuilders/dom.py", "_tokenizer.py",
